@@ -22,7 +22,7 @@ RULE = ("seeded random configurations: circuit (0-3 heralds of 0-2 photons incl.
         "inputs x expected-output map x quick-sampler detector mode; distinct = (herald photon pattern, in!=out, "
         "lossy, post-selection kind, #inputs, detector mode, photons, modes); non-trivial = heralds or loss or "
         "post-selection present")
-MANDATORY = ["herald_with_photon", "herald_in_ne_out", "post_selection_rejects", "threshold_bunched_candidate",
+MANDATORY = ["herald_with_negative_photon_number_offered", "herald_with_photon", "herald_in_ne_out", "post_selection_rejects", "threshold_bunched_candidate",
              "lossy", "predicate_post_selection", "rule_post_selection", "error_rate_checked", "rule_added_in_place", "rule_added_to_empty_post_selection", "expected_in_other_order", "herald_declared_in_place"]
 DECIDING = ["rel_analyzer_vs_sampler", "rel_quick_vs_sampler", "rel_simulator_vs_sampler", "rel_performance"]
 BUDGET = {"quick": 30, "thorough": 480}
@@ -133,7 +133,27 @@ def make_circuit(lw, rng):
         c = b.tree(int(rng.integers(2, 6)), 1, log, max_children=2, direct_heralds_p=0.3)
     c, variant = equivalent_variant(c, rng)
     log.append(["presented_as", variant])
+    if rng.random() < 0.03 and c.input_modes >= 2:
+        # a herald that is to carry a negative number of photons: refused when declared (then the circuit goes on as it
+        # is), or - if some version of the library takes it - a circuit like any other, on which the four objects must agree
+        try:
+            ext_ = c._external_heralds
+            free = [m for m in range(c.n_modes - len(c._internal_modes))
+                    if c._map_mode(m) not in ext_["input"] and c._map_mode(m) not in ext_["output"]]
+        except Exception:  # noqa: BLE001
+            free = []
+        if free:
+            m_ = int(free[int(rng.integers(len(free)))])
+            try:
+                c.herald(int(rng.choice([-1, -2])), m_)
+                log.append(["herald", "negative photon number", m_])
+                NEG["accepted"] += 1
+            except (ValueError, TypeError):
+                NEG["refused"] += 1
     return c, log
+
+
+NEG = {"accepted": 0, "refused": 0}
 
 
 def run(ctx):
@@ -148,6 +168,11 @@ def run(ctx):
             ctx.count("construction_raised:" + type(e).__name__)
             circmon.drain()
             continue
+        for k_neg in ("accepted", "refused"):
+            if NEG[k_neg]:
+                ctx.count("herald_with_negative_photon_number_" + k_neg, NEG[k_neg])
+                ctx.bucket("herald_with_negative_photon_number_offered")
+                NEG[k_neg] = 0
         circmon.drain()
         k = c.input_modes
         h = c.heralds
